@@ -49,6 +49,7 @@ fn parse_ty(s: &str) -> DataType {
         "u16" => UInt16,
         "u32" => UInt32,
         "u64" => UInt64,
+        "f16" => Float16,
         "f32" => Float32,
         "f64" => Float64,
         "bool" => Boolean,
@@ -124,6 +125,7 @@ fn build(dt: &DataType, toks: &[&str], force: bool) -> ArrayRef {
         UInt16 => Arc::new(prim::<UInt16Type>(toks, force, |s| i128_of(s) as u16)),
         UInt32 => Arc::new(prim::<UInt32Type>(toks, force, |s| i128_of(s) as u32)),
         UInt64 => Arc::new(prim::<UInt64Type>(toks, force, |s| i128_of(s) as u64)),
+        Float16 => Arc::new(prim::<Float16Type>(toks, force, |s| half::f16::from_bits(i128_of(s) as u16))),
         Float32 => Arc::new(prim::<Float32Type>(toks, force, |s| f32::from_bits(i128_of(s) as u32))),
         Float64 => Arc::new(prim::<Float64Type>(toks, force, |s| f64::from_bits(i128_of(s) as u64))),
         Date32 => Arc::new(prim::<Date32Type>(toks, force, |s| i128_of(s) as i32)),
@@ -453,6 +455,135 @@ fn checks_on_output(r: &Result<ArrayRef, String>, to: &DataType, n: usize, dom: 
     }
 }
 
+
+// ------------------------------------------------------------ exact float reference (big integers)
+
+use num_bigint::{BigInt, Sign};
+
+/// a finite f64 as the exact dyadic rational num / 2^shift
+fn f64_exact(x: f64) -> Option<(BigInt, u32)> {
+    if !x.is_finite() {
+        return None;
+    }
+    let bits = x.to_bits();
+    let frac = bits & ((1u64 << 52) - 1);
+    let ex = ((bits >> 52) & 0x7ff) as i64;
+    let (m, e) = if ex == 0 { (frac, -1074i64) } else { (frac | (1u64 << 52), ex - 1075) };
+    let mut n = BigInt::from(m);
+    if bits >> 63 == 1 {
+        n = -n;
+    }
+    if e >= 0 { Some((n << (e as usize), 0)) } else { Some((n, (-e) as u32)) }
+}
+
+fn big_pow10(k: u32) -> BigInt {
+    let mut r = BigInt::from(1);
+    for _ in 0..k {
+        r *= 10;
+    }
+    r
+}
+
+/// round half away from zero of num/den (den > 0)
+fn round_half_away(num: &BigInt, den: &BigInt) -> BigInt {
+    let a = num.magnitude().clone();
+    let d = den.magnitude().clone();
+    let q = (a * 2u32 + &d) / (d * 2u32);
+    let q = BigInt::from_biguint(Sign::Plus, q);
+    if num.sign() == Sign::Minus { -q } else { q }
+}
+
+fn float_token_value(ty: &str, tok: &str) -> f64 {
+    let b = i128_of(tok);
+    match ty {
+        "f16" => half::f16::from_bits(b as u16).to_f64(),
+        "f32" => f32::from_bits(b as u32) as f64,
+        _ => f64::from_bits(b as u64),
+    }
+}
+
+/// Exact references for float → decimal and float → integer, compared with the safe-mode
+/// result row by row (the strict result is tied to it by the duality oracle).
+fn float_oracle(src: &str, to: &DataType, toks: &[&str], safe: &Result<ArrayRef, String>, out: &mut Out) {
+    let Ok(arr) = safe else { return };
+    let shown = show(arr.as_ref());
+    let got: Vec<&str> = if shown == "-" { vec![] } else { shown.split(',').collect() };
+    if got.len() != toks.len() {
+        return;
+    }
+    for (t, g) in toks.iter().zip(got.iter()) {
+        let (valid, pl) = split_tok(t);
+        if !valid {
+            continue;
+        }
+        let v = float_token_value(src, pl);
+        if let Some((_, p, s)) = dec_params(to) {
+            let lim = big_pow10(p as u32);
+            let fits = |q: &BigInt| q < &lim && q > &(-lim.clone());
+            // (a) exact: v * 10^s with unbounded precision
+            let exact = f64_exact(v).map(|(n, sh)| {
+                let (num, den) = if s >= 0 { (n * big_pow10(s as u32), BigInt::from(1) << (sh as usize)) } else { (n, (BigInt::from(1) << (sh as usize)) * big_pow10((-(s as i32)) as u32)) };
+                (round_half_away(&num, &den), num, den)
+            });
+            // (b) as written: the binary64 product, then exact half-away rounding
+            let prod = 10_f64.powi(s as i32) * v;
+            let written = f64_exact(prod).map(|(n, sh)| round_half_away(&n, &(BigInt::from(1) << (sh as usize))));
+            let expect_written = match &written {
+                Some(q) if fits(q) => q.to_string(),
+                _ => "n".to_string(),
+            };
+            let expect_exact = match &exact {
+                Some((q, _, _)) if fits(q) => q.to_string(),
+                _ => "n".to_string(),
+            };
+            let prod_exact = match (&exact, f64_exact(prod)) {
+                (Some((_, num, den)), Some((pn, psh))) => num.clone() * (BigInt::from(1) << (psh as usize)) == pn * den.clone(),
+                (None, _) => true,
+                _ => false,
+            };
+            if *g != expect_written {
+                out.oracle.push(format!("float->decimal: {} ({}) gave {} but round-half-away of the binary64 product is {}", pl, v, g, expect_written));
+                out.tags.push("kf:float-round".into());
+            } else if *g != expect_exact {
+                // the binary64 multiplication `mul * input` (or powi) already rounded: documented double rounding
+                out.tags.push(if prod_exact { "float:exact-mismatch".into() } else { "float:double-rounding".to_string() });
+                if prod_exact {
+                    out.oracle.push(format!("float->decimal: {} ({}) gave {} but the exact value rounds to {}", pl, v, g, expect_exact));
+                }
+            } else {
+                out.tags.push(if prod_exact { "float:prod-exact".into() } else { "float:prod-inexact-same".to_string() });
+            }
+        } else if let Some((lo, hi)) = int_range(&format!("{}", ty_tok_of(to))) {
+            let expect = match f64_exact(v) {
+                Some((n, sh)) => {
+                    let den = BigInt::from(1) << (sh as usize);
+                    let q = BigInt::from_biguint(Sign::Plus, n.magnitude() / den.magnitude());
+                    let q = if n.sign() == Sign::Minus { -q } else { q };
+                    if q >= BigInt::from(lo) && q <= BigInt::from(hi) { q.to_string() } else { "n".to_string() }
+                }
+                None => "n".to_string(),
+            };
+            if *g != expect {
+                out.oracle.push(format!("float->integer: {} ({}) gave {} but truncation gives {}", pl, v, g, expect));
+            }
+        }
+    }
+}
+
+fn ty_tok_of(dt: &DataType) -> &'static str {
+    match dt {
+        DataType::Int8 => "i8",
+        DataType::Int16 => "i16",
+        DataType::Int32 => "i32",
+        DataType::Int64 => "i64",
+        DataType::UInt8 => "u8",
+        DataType::UInt16 => "u16",
+        DataType::UInt32 => "u32",
+        DataType::UInt64 => "u64",
+        _ => "?",
+    }
+}
+
 fn op_cast(var: usize, src: &str, dst: &str, safe: bool, vals: &str) -> Out {
     let (from, to) = (parse_ty(src), parse_ty(dst));
     let toks: Vec<&str> = if vals == "-" { vec![] } else { vals.split(',').collect() };
@@ -475,6 +606,9 @@ fn op_cast(var: usize, src: &str, dst: &str, safe: bool, vals: &str) -> Out {
     if matches!(&rs, Err(e) if e == "PANIC") || matches!(&rt, Err(e) if e == "PANIC") {
         out.tags.push("kf:panic".into());
         out.oracle.push("the cast panicked".into());
+    }
+    if matches!(src, "f16" | "f32" | "f64") {
+        float_oracle(src, &to, &toks, &rs, &mut out);
     }
     checks_on_output(&rs, &to, toks.len(), dom, "safe", &mut out);
     checks_on_output(&rt, &to, toks.len(), dom, "strict", &mut out);
@@ -1167,6 +1301,148 @@ fn boundary_cases() -> Vec<(String, String)> {
     out
 }
 
+// ------------------------------------------------------------------ dense float boundaries
+
+fn next_up(x: f64) -> f64 {
+    if x == 0.0 { return f64::from_bits(1); }
+    let b = x.to_bits();
+    f64::from_bits(if x > 0.0 { b + 1 } else { b - 1 })
+}
+fn next_down(x: f64) -> f64 {
+    -next_up(-x)
+}
+fn next_up32(x: f32) -> f32 {
+    if x == 0.0 { return f32::from_bits(1); }
+    let b = x.to_bits();
+    f32::from_bits(if x > 0.0 { b + 1 } else { b - 1 })
+}
+
+fn ftok(ty: &str, x: f64) -> String {
+    match ty {
+        "f16" => (half::f16::from_f64(x).to_bits() as u64).to_string(),
+        "f32" => ((x as f32).to_bits() as u64).to_string(),
+        _ => x.to_bits().to_string(),
+    }
+}
+
+/// boundary values of a float format with `fb` fraction bits (52 / 23 / 10), as f64
+fn float_edge_values(fbits: u32) -> Vec<f64> {
+    let t = 2f64.powi(fbits as i32); // 2^fb: spacing 1 starts here
+    let mut v: Vec<f64> = vec![0.0, 0.5, 1.0, 1.5, 2.5, 3.5, 4.5, 0.25, 0.75, 0.49999999999999994, 0.5000000000000001, 1e-320, 5e-324, f64::MIN_POSITIVE];
+    for k in 0..10 {
+        let k = k as f64;
+        v.extend_from_slice(&[t + k, 2.0 * t - k, 2.0 * t + 2.0 * k, t / 2.0 + k + 0.5, t - k - 0.5, t / 4.0 + k + 0.25, t / 4.0 + k + 0.5, k + 0.5]);
+    }
+    if fbits == 52 {
+        let more: Vec<f64> = v.iter().flat_map(|x| [next_up(*x), next_down(*x)]).collect();
+        v.extend(more);
+        for p in [1i32, 2, 5, 9, 10, 15, 16, 17, 18, 19, 20, 22, 23, 38, 39, 76] {
+            let b = 10f64.powi(p);
+            v.extend_from_slice(&[b, next_down(b), next_up(b), b - 1.0, next_down(b - 1.0), next_up(b - 1.0), b - 0.5, b / 10.0 + 0.5]);
+        }
+        v.extend_from_slice(&[1.005, 2.675, 0.285, 1.0049999999999999, 0.145, 8.345, 1e22 + 2097152.0, 4503599627370497.0 / 10.0, 450359962737049.75]);
+    } else if fbits == 23 {
+        let more: Vec<f64> = v.iter().flat_map(|x| { let y = *x as f32; [next_up32(y) as f64, -(next_up32(-y)) as f64] }).collect();
+        v.extend(more);
+        v.extend_from_slice(&[16777216.0, 16777215.0, 8388608.5, 8388607.5, 9999999.0, 1e7, 99999.99, 0.1, 3.4028235e38]);
+    } else {
+        v.extend_from_slice(&[2047.0, 2048.0, 2049.0, 1023.5, 1024.5, 511.5, 512.25, 65504.0, 0.1, 999.5, 99.94, 5.96e-8, 6.1e-5]);
+    }
+    let neg: Vec<f64> = v.iter().map(|x| -*x).collect();
+    v.extend(neg);
+    v.extend_from_slice(&[f64::NAN, f64::INFINITY, f64::NEG_INFINITY]);
+    v
+}
+
+fn float_boundary_cases() -> Vec<(String, String)> {
+    let mut out = vec![];
+    let chunk = 24usize;
+    for (fl, fbits) in [("f64", 52u32), ("f32", 23), ("f16", 10)] {
+        let vals = float_edge_values(fbits);
+        let toks: Vec<String> = {
+            let mut t: Vec<String> = vec![];
+            for x in &vals {
+                let s = ftok(fl, *x);
+                if !t.contains(&s) {
+                    t.push(s);
+                }
+            }
+            t
+        };
+        // float -> decimal: all widths, precisions at/around the 2^53 digit count and the maximum, scales 0/1/2/-1
+        for w in [32u32, 64, 128, 256] {
+            let mut ps: Vec<usize> = vec![max_p(w), 5];
+            for p in [16usize, 17, 20] {
+                if p < max_p(w) {
+                    ps.push(p);
+                }
+            }
+            for p in ps {
+                for s in [0i64, 1, 2, -1] {
+                    if s > p as i64 {
+                        continue;
+                    }
+                    for (ci, c) in toks.chunks(chunk).enumerate() {
+                        // scale 0 gets every value; other scales every second chunk
+                        if s != 0 && (ci + p + w as usize) % 2 == 1 {
+                            continue;
+                        }
+                        for safe in [1, 0] {
+                            out.push((
+                                format!("C13 cast 0 {} {} {} n:{},{}", fl, dec_tok(w, p, s), safe, c[0], c.join(",")),
+                                format!("op:cast g:boundary-float-dec safe:{} nt", safe),
+                            ));
+                        }
+                    }
+                }
+            }
+        }
+    }
+    // float -> integer: around every integer type's MIN/MAX
+    for (fl, fbits) in [("f64", 52u32), ("f32", 23), ("f16", 10)] {
+        for dst in INTS {
+            let (lo, hi) = int_range(dst).unwrap();
+            let mut v: Vec<f64> = vec![0.0, -0.0, 0.5, -0.5, 0.99, -0.99, 1.5, -1.5, f64::NAN, f64::INFINITY, f64::NEG_INFINITY];
+            for e in [lo as f64, hi as f64, hi as f64 + 1.0] {
+                for d in [-2.0, -1.5, -1.0, -0.5, -0.25, 0.0, 0.25, 0.5, 1.0, 1.5, 2.0] {
+                    v.push(e + d);
+                }
+                v.push(next_up(e));
+                v.push(next_down(e));
+                v.push(e * 2.0);
+            }
+            let _ = fbits;
+            let mut t: Vec<String> = vec![];
+            for x in &v {
+                let s = ftok(fl, *x);
+                if !t.contains(&s) {
+                    t.push(s);
+                }
+            }
+            for safe in [1, 0] {
+                out.push((format!("C13 cast 0 {} {} {} {}", fl, dst, safe, t.join(",")), format!("op:cast g:boundary-float-int safe:{} nt", safe)));
+            }
+        }
+    }
+    // integer -> float: around 2^24 / 2^53 (rounding to even) and type MIN/MAX
+    for src in INTS {
+        let (lo, hi) = int_range(src).unwrap();
+        let mut v: Vec<i128> = vec![lo, lo + 1, hi, hi - 1, 0, 1];
+        for k in [24u32, 25, 53, 54, 63] {
+            let b = 1i128 << k;
+            for d in -3i128..=3 {
+                v.push(b + d);
+                v.push(-b + d);
+            }
+        }
+        let t: Vec<String> = v.into_iter().filter(|x| *x >= lo && *x <= hi).map(|x| x.to_string()).collect();
+        for fl in ["f32", "f64"] {
+            out.push((format!("C13 cast 0 {} {} 1 {}", src, fl, t.join(",")), "op:cast g:boundary-int-float safe:1 nt".to_string()));
+        }
+    }
+    out
+}
+
 fn gen_cast(rng: &mut Rng) -> (String, String) {
     let var = gen_var(rng);
     let safe = rng.below(2);
@@ -1357,17 +1633,26 @@ fn gen_cast(rng: &mut Rng) -> (String, String) {
         }
     } else {
         // floats (no Lean model: duality oracle only)
-        let fl = *rng.pick(&["f32", "f64"]);
+        let fl = *rng.pick(&["f16", "f32", "f64", "f64"]);
         let fbits = |rng: &mut Rng, fl: &str| -> String {
             let specials: [f64; 16] = [0.0, -0.0, 1.0, -1.0, 0.5, 1.5, 2.5, -2.5, 127.0, 128.0, 255.5, 256.0, 2147483648.0, 9.223372036854775807e18, 1e300, f64::MIN_POSITIVE];
-            let x = match rng.below(5) {
+            let x = match rng.below(6) {
                 0 => *rng.pick(&specials),
                 1 => *rng.pick(&[f64::NAN, f64::INFINITY, f64::NEG_INFINITY]),
                 2 => rng.range(-70000, 70000) as f64 / 8.0,
-                3 => f64::from_bits(rng.next_u64()),
+                3 => {
+                    let y = f64::from_bits(rng.next_u64());
+                    if y.is_nan() { f64::NAN } else { y }
+                }
+                4 => {
+                    // integers near 2^52..2^53 and half-way values
+                    let b = 2f64.powi(*rng.pick(&[22i32, 23, 24, 51, 52, 53]));
+                    let y = b + rng.range(-6, 6) as f64 * 0.5;
+                    if rng.bool() { y } else { -y }
+                }
                 _ => (rng.next_u64() as i64) as f64,
             };
-            if fl == "f32" { ((x as f32).to_bits() as u64).to_string() } else { x.to_bits().to_string() }
+            ftok(fl, x)
         };
         if rng.chance(2, 3) {
             let n = n_rows(rng);
@@ -1382,7 +1667,7 @@ fn gen_cast(rng: &mut Rng) -> (String, String) {
             (fl.into(), d, with_nulls(rng, v, &|_| "0".into()), "g:float-num".into())
         } else {
             let s = *rng.pick(&INTS);
-            (s.into(), fl.into(), int_vals(rng, s), "g:int-float".into())
+            (s.into(), (if fl == "f16" { "f32" } else { fl }).into(), int_vals(rng, s), "g:int-float".into())
         }
     };
     let line = format!("C13 cast {} {} {} {} {}", var, src, dst, safe, join(&vals));
@@ -1781,6 +2066,9 @@ fn main() {
         // dense boundary enumeration (deterministic, every run, both modes)
         if args.cases.is_none() {
             for (line, tags) in boundary_cases() {
+                emit(&mut sink, line, tags, None);
+            }
+            for (line, tags) in float_boundary_cases() {
                 emit(&mut sink, line, tags, None);
             }
         }
